@@ -331,10 +331,8 @@ class GroupBase:
             if all(item == [default] for item in idx_cross_mdls):
                 out_pre.append([default])
                 continue
-            for item in idx_cross_mdls:
-                if item != [default]:
-                    out_pre.append(item)
-                    break
+            # the matches of every model of the group, in the order of the models
+            out_pre.append([idx for item in idx_cross_mdls if item != [default] for idx in item])
 
         if allow_all:
             out = out_pre
